@@ -184,6 +184,12 @@ def extra_cases(tier):
     for pad in ("id0 ", " id0", "id0\n", "ID0"):
         parts = [referenced("creator", 0, 1), referencing("metadataProvider", "id0"), referencing("contact", pad)]
         yield f"dangling/near-miss/{pad!r}", skeleton(parts), "dangling"
+    # ... and so is a references element with no value at all, also after resolvable ones in document order
+    for empty in (None, ""):
+        parts = [referenced("creator", 0, 1), referencing("metadataProvider", "id0"), referencing("contact", empty)]
+        yield f"dangling/empty/{empty!r}", skeleton(parts), "dangling"
+        parts = [referenced("creator", 0, 1), referencing("metadataProvider", empty), referencing("contact", "id0")]
+        yield f"dangling/empty-first/{empty!r}", skeleton(parts), "dangling"
     # the duplicated id sits on a referencing element itself
     parts = [referenced("creator", 0, 0), ["contact", None, {"id": "id0"}, [["references", "id0", {}, []]]]]
     yield "dup/on-referencing-element", skeleton(parts), "duplicate"
